@@ -254,6 +254,16 @@ example : ∃ env e, envSorted env ∧ wrapOk e = true ∧ rangesOk e = true ∧
    by intro ser h; simp at h; rcases h with rfl | rfl <;> decide,
    by decide, by decide, by decide, by decide, by decide +kernel⟩
 
+/-! ### subquery alignment -/
+
+/-- `subqueryTimeRange`: the child evaluator's first step is the least multiple of the subquery step strictly
+    after `start − offset − range` (also for negative times, where Go's division truncates towards zero). -/
+theorem subquery_first_step_spec (x step : Int) (h : 0 < step) :
+    x < firstMultipleAfter x step ∧ firstMultipleAfter x step ≤ x + step ∧ step ∣ firstMultipleAfter x step :=
+  firstMultipleAfter_spec x step h
+
+example : firstMultipleAfter (-7) 5 = -5 ∧ firstMultipleAfter (-10) 5 = -5 ∧ firstMultipleAfter 10 5 = 15 := by decide
+
 /-! ### offset -/
 
 /-- `offset d` on a selector at `t` is the selector without the offset at `t − d` (no `@` modifier). -/
